@@ -338,6 +338,26 @@ Proof.
   rewrite (src_iprange_to_globs_not4_ok to_cidrs 6 _ 6 _) by lia. reflexivity.
 Qed.
 
+(* mixed versions: the model says Unsupported (str() of an IPv6 address is not modelled); so does the generated code, because
+   py_addr_str does -- after the IPv4 operand, when it comes first, has been printed and read back *)
+From NV Require Proofs.C17_str.
+Lemma src_iprange_to_globs_mixed_ok to_cidrs sv s ev e : (sv = 4 <-> ev <> 4) -> (sv = 4 -> 0 <= s < 2 ^ 32) ->
+  src_iprange_to_globs (sv, s) (ev, e) = iprange_to_globs to_cidrs (sv, s) (ev, e).
+Proof.
+  intros X Hs. unfold src_iprange_to_globs, iprange_to_globs. cbn [fst snd].
+  change (src_IPAddress_version sv (width sv) s) with sv. change (src_IPAddress_version ev (width ev) e) with ev.
+  unfold src_iprange_to_globs__iprange_to_glob, py_addr_str. cbn [fst snd].
+  destruct (sv =? 4) eqn:E1.
+  - assert (sv = 4) by lia. assert (ev <> 4) by tauto. replace (ev =? 4) with false by lia. cbn [negb andb]. cbv zeta.
+    rewrite (C17_str.int_to_str4_eq s (Hs ltac:(assumption))). cbn [bind]. rewrite py_map_o_eq.
+    change (fun h2 : string => py_int_o 10 h2) with (fun t : string => match py_int 10 t with Some v => Ok v | None => Raise ValueError end).
+    assert (K : ints_of_str (join "." (map fmt_d (C17_str.octets_of s))) = Ok (C17_str.octets_of s)).
+    { apply C17_str.ints_of_str_octets; [discriminate|].
+      eapply Forall_impl; [|apply (C17_str.octets_of_range s (Hs ltac:(assumption)))]. cbn. lia. }
+    unfold ints_of_str in K. change ch_dot with "."%char in K. rewrite K. reflexivity.
+  - assert (ev = 4) by (destruct (Z.eq_dec ev 4); [assumption|exfalso; apply X in n; lia]). subst ev. reflexivity.
+Qed.
+
 (* ---------------------------------------------------------------- the IPGlob class *)
 (* the state of an IPGlob object: the two IPAddress objects _start, _end (IPv4) and the slot _glob (None = unset) *)
 Definition st_of (o : ipglob) : (Z * Z) * (Z * Z) * option string := ((4, g_start o), (4, g_end o), g_glob o).
@@ -431,6 +451,8 @@ Lemma C17_tie_ok :
      src_iprange_to_globs (4, s) (4, e) = iprange_to_globs src_to_cidrs (4, s) (4, e)) /\
   (forall to_cidrs sv s ev e, sv <> 4 -> ev <> 4 ->
      src_iprange_to_globs (sv, s) (ev, e) = iprange_to_globs to_cidrs (sv, s) (ev, e)) /\
+  (forall to_cidrs sv s ev e, (sv = 4 <-> ev <> 4) -> (sv = 4 -> 0 <= s < 2 ^ 32) ->
+     src_iprange_to_globs (sv, s) (ev, e) = iprange_to_globs to_cidrs (sv, s) (ev, e)) /\
   (forall s, omap blocks_of (src_glob_to_cidrs s) = glob_to_cidrs src_to_cidrs s) /\
   (forall v p, net4_ok {| nver := 4; nval := v; nplen := p |} ->
      (forall nets, src_iprange_to_cidrs (py_net_of_addr (4, net_first 32 v p)) (py_net_of_addr (4, net_last 32 v p)) = Ok nets ->
@@ -450,7 +472,7 @@ Lemma C17_tie_ok :
 Proof.
   split; [exact src_octet_value_ok|]. split; [exact src_valid_glob_loop_ok|]. split; [exact src_valid_glob_ok|].
   split; [exact src_glob_to_iptuple_ok|]. split; [exact src_glob_to_iprange_ok|]. split; [exact src_i2g_ok|].
-  split; [exact src_iprange_to_globs_v4_ok|]. split; [exact src_iprange_to_globs_not4_ok|].
+  split; [exact src_iprange_to_globs_v4_ok|]. split; [exact src_iprange_to_globs_not4_ok|]. split; [exact src_iprange_to_globs_mixed_ok|].
   split; [exact src_glob_to_cidrs_ok|]. split; [exact src_cidr_to_glob_v4_ok|]. split; [exact src_cidr_to_glob_v6_ok|].
   split; [exact src_ipglob_get_ok|]. split; [exact src_ipglob_str_ok|]. split; [exact src_ipglob_set_ok|].
   split; [exact src_ipglob_init_ok|]. split; [exact src_ipglob_getstate_ok|exact src_ipglob_setstate_ok].
